@@ -26,7 +26,7 @@ import asyncio
 import os
 import random
 import re
-from typing import Any, Optional
+from typing import Optional
 
 from . import runner
 from .monitors import safety_net_violations
@@ -878,6 +878,7 @@ C13_DIRECTED = [
     [{'e': 'pp', 'peers': ['p1']}, _A('p1', 1), {'e': 'in', 'peer': 'p2'},
      {'e': 'sessloss', 'during': [_A('p1', 3, order='l')]}],
     [{'e': 'pp', 'peers': ['p1']}, {'e': 'sessloss', 'during': [_A('p1', 1)]}],
+    [{'e': 'in', 'peer': 'p2'}, {'e': 'pp', 'peers': ['p1']}, {'e': 'sessloss', 'during': [_A('p1', 1)]}],
     [{'e': 'cfail', 'peer': 'p1', 'how': 'refuse'}, {'e': 'pp', 'peers': ['p1']}, _A('p1', 1)],
     [{'e': 'cfail', 'peer': 'p1', 'how': 'hang'}, {'e': 'pp', 'peers': ['p1', 'p2']}, _A('p2', 1)],
     [{'e': 'pp', 'peers': ['p1']}, _A('p1', 1), {'e': 'pp', 'peers': ['p2']}, _A('p2', 1, root='rootB')],
